@@ -437,6 +437,9 @@ func (v *vc) enterLoop(fr *frame, st *state, li *loopInfo, hdrEntry map[*ssa.Bas
 		}
 	}
 	for _, g := range sortedKeys(n.ghost) {
+		if strings.HasPrefix(g, balPrefix) {
+			continue // not havocked: every back edge proves the iteration left it as it was (lockbalance.go)
+		}
 		if mod.ghostAll || mod.ghost[g] {
 			ng := v.fresh("ghost " + g)
 			v.decl(ng, v.ghostSorts[g])
@@ -525,6 +528,7 @@ func (v *vc) checkBackEdge(fr *frame, st *state, from *ssa.BasicBlock, li *loopI
 	for _, ai := range v.loopAutoInv(fr, st, h, pick) {
 		v.oblige(st, "inv-keep", ai.label, site, ai.term, nil)
 	}
+	v.balanceAtBackEdge(fr, st, hdrEntry[h], site)
 	if fr.top {
 		if mod := v.loopModSet(fr, li); !mod.all {
 			for _, hname := range sortedKeys(mod.heaps) {
